@@ -545,3 +545,42 @@ Proof.
   specialize (Hb _ Hin). cbn in Hb. rewrite forallb_forall in Hb. specialize (Hb m Hm).
   apply nodupb_ok. exact Hb.
 Qed.
+
+(* -type=A,B (one file per type, Clean inactive): fixpoint for generators blind to generated files, when no generated
+   file found or left in the directory declares a type named like a listed type *)
+Section SpecifiedFix.
+  Variable p : pkg.
+  Variable c : cmd.
+  Hypothesis Hspec : specified c = true.
+
+  Lemma clean_specified : forall v dir, clean c (all_in_one_file c v) dir = dir.
+  Proof. apply clean_inactive. left. unfold separate. rewrite Hspec. reflexivity. Qed.
+
+  Theorem enum_specified_twice_fixpoint : forall o1 o2 prior w dir,
+    c_sub c = CEnum -> legal o1 -> legal o2 -> NoDup (keys prior) ->
+    (forall T, In T (c_types c) -> same_defs (mk_view (p_hw p) (disk_of p dir) []) (mk_view (p_hw p) (disk_of p prior) []) T) ->
+    run o1 p prior c = ODone w dir ->
+    exists w' dir', run o2 p dir c = ODone w' dir' /\ listing dir' = listing dir /\ Permutation w' w.
+  Proof.
+    intros o1 o2 prior w dir Hc H1 H2 Hn Hd Hr.
+    apply (run_twice_fixpoint p c clean_specified o1 o2 prior w dir H1 H2 Hn Hr).
+    unfold run_generate. rewrite Hc.
+    apply (generate_blind_specified (enum_make c) enum_render (enum_same_out c) (p_hw p) (enum_blind c _)); auto.
+  Qed.
+
+  Theorem rest_specified_twice_fixpoint : forall o1 o2 prior w dir,
+    c_sub c = CRest -> rest_pkg_ok (p_hw p) -> legal o1 -> legal o2 -> NoDup (keys prior) ->
+    (forall T, In T (c_types c) -> same_defs (mk_view (p_hw p) (disk_of p dir) []) (mk_view (p_hw p) (disk_of p prior) []) T) ->
+    run o1 p prior c = ODone w dir ->
+    exists w' dir', run o2 p dir c = ODone w' dir' /\ listing dir' = listing dir /\ Permutation w' w.
+  Proof.
+    intros o1 o2 prior w dir Hc Hok H1 H2 Hn Hd Hr.
+    apply (run_twice_fixpoint p c clean_specified o1 o2 prior w dir H1 H2 Hn Hr).
+    unfold run_generate. rewrite Hc.
+    transitivity (generate (rest_make o1 c) rrender (list_types_of CRest) c o2 (p_hw p) (disk_of p dir) rstate0).
+    - exact (generate_rel (rest_make o2 c) rrender (rest_make o1 c) rrender c (p_hw p) (disk_of p dir)
+               (fun s1 s2 ov T => rest_make_rel o2 o1 c (p_hw p) (disk_of p dir) s1 s2 ov T H2 H1 Hok)
+               (list_types_of CRest) o2 rstate0 rstate0).
+    - apply (generate_blind_specified (rest_make o1 c) rrender (rest_same_out o1 c) (p_hw p) (rest_blind o1 c _)); auto.
+  Qed.
+End SpecifiedFix.
